@@ -7,7 +7,8 @@ NAMES = ["a", "b", "c", "x", "y", "z", "foo", "bar_1", "v.w", "_t", "k9", "é", 
          "e", "E1", "None", "null", "nan", "inf", "x.y.z", "a_", "self", "truex", "Falsey", "i", "_", "a.1", "q" * 40]
 FNAMES = ["f", "g", "h2", "min", "max", "sum", "mul", "fn_1", "é"]
 STRS = ["", "a", "ab", "é", "a b", "it's", 'say "hi"', "x+y", "in", "1,2", "(", "\t", "日本", " ", "not", "]", ";",
-        "\\", "\\n", "a\\tb", "\x00", "\n", "\r\n", "?:", "true", "1e5", "#", "s" * 300, "))", "[{", "a'b'c", 'x"y"z', "😀", "\u00a0"]
+        "\\", "\\n", "a\\tb", "\x00", "\n", "\r\n", "?:", "true", "1e5", "#", "s" * 300, "))", "[{", "a'b'c", 'x"y"z', "😀", "\u00a0",
+        "\\uD800", "\\uDBFF\\uDFFF", "\\u0041", "\\x41", "\\u{1F600}", "{rhs}", "{lhs}{op}", "{}", "{0}", "%s", "$1", "\ufeffbom", "\ufeff", "Zoë", "東京"]
 PARSE_NUMS = [("0", 0), ("1", 0), ("2", 0), ("7", 0), ("10", 0), ("150", 2), ("5", 1), ("1", 1), ("100", 2), ("12345678901234567890", 0), ("1", 28), ("79228162514264337593543950335", 0), ("300", 2), ("7", 3),
               ("2147483648", 0), ("4294967296", 0), ("9223372036854775808", 0), ("18446744073709551616", 0), ("9007199254740993", 0), ("0", 3), ("1000000000000000000", 0), ("255", 0), ("65536", 0)]
 
@@ -316,8 +317,13 @@ ORDER_FNS = {
     "r3": {"id": 13, "log": True, "ret": "const", "v": ["n", "25", 1]},
     # `sh` is also registered globally (id 1006): the context binding must shadow it, whatever happens
     "sh": {"id": 14, "log": True, "ret": "last"},
+    # context functions that carry the names of built-in aggregates: they shadow the built-ins
+    "sum": {"id": 15, "log": True, "ret": "last"},
+    "max": {"id": 16, "log": True, "ret": "last"},
 }
-ORDER_VARS = {"a": ["n", "2", 0], "b": ["n", "35", 1]}
+ORDER_VARS = {"a": ["n", "2", 0], "b": ["n", "35", 1],
+              # big values: a 40-element list and a 36-entry map (assignment targets and operands)
+              "xs": ["l", [["n", str(i), 0] for i in range(40)]], "mp": ["m", [[["s", "k%d" % i], ["n", str(i), 1]] for i in range(36)]]}
 
 
 def order_table():
@@ -353,9 +359,11 @@ class OrderGen:
         self.i += 1
         return ["num", str(self.i), 0]
 
-    def call(self, *args):
+    def call(self, *args, f=None):
         x = self.rnd.random()
-        f = "gt" if x < 0.15 else ("sh" if x < 0.3 else "t")
+        f = f or ("gt" if x < 0.13 else ("sh" if x < 0.26 else ("sum" if x < 0.33 else ("max" if x < 0.38 else "t"))))
+        if x > 0.985:
+            f = self.rnd.choice(["Gt", "GT", "Sh", "T", "gT", "Sum", "MAX"])  # names are case-sensitive: these are bound nowhere
         return ["fn", f, [self.uid()] + list(args)]
 
     def leaf(self):
@@ -367,7 +375,7 @@ class OrderGen:
             return num_lit(*r.choice(NUM_SMALL))
         if k == "bare":
             return ["ref", r.choice(["r1", "r3"])]
-        return ["ref", r.choice(["a", "b", "u"])]
+        return ["ref", r.choice(["a", "b", "u", "a", "b", "u", "xs", "mp"])]
 
     def cond(self, d):
         r = self.rnd
@@ -397,12 +405,19 @@ class OrderGen:
         if k == "map":
             return ["map", [[n(), n()] for _ in range(r.randint(1, 2))]]
         if k == "call":
+            if r.random() < 0.25:
+                # a call whose argument is directly a call of the same function (context function, global, shadowed aggregate name)
+                f = r.choice(["t", "gt", "sh", "sum", "max", "sum"])
+                inner = self.call(*[n() for _ in range(r.randint(0, 2))], f=f)
+                args = [n() for _ in range(r.randint(0, 2))]
+                args.insert(r.randrange(len(args) + 1), inner)
+                return self.call(*args, f=f)
             return self.call(*[n() for _ in range(r.randint(1, 3))])
         if k == "tern":
             return ["tern", self.cond(d), n(), n()]
         if k == "asg":
             op = r.choice(["=", "=", "+=", "-=", "sop", "*="])
-            tgt = ["ref", r.choice(["a", "b", "u"])]
+            tgt = ["ref", r.choice(["a", "b", "u", "a", "b", "u", "xs", "mp"])]
             x = r.random()
             if x < 0.08:
                 tgt = self.call()  # not a name: error after both sides were evaluated
